@@ -9,6 +9,16 @@
 (*  NegSpec: every pair of ideal fees in Lo..Hi (step Step) within each     *)
 (*           other's cap, default and tightest opener cap, legacy and       *)
 (*           taproot rule: the whole negotiation.                           *)
+(*  PeerSpec: part III - one real node against an arbitrary honest BOLT-2   *)
+(*           peer.  PeerWide: every channel of the grid (small side around  *)
+(*           the channel AND the network dust limits) x either party as the *)
+(*           node x Environment.BlockHeight 0 / current, ONE round: every   *)
+(*           offer of the peer (fees around all thresholds x lock times x   *)
+(*           script kept/changed x its honest field) answered by the node,  *)
+(*           every offer of the node answered by the peer.                  *)
+(*           ~PeerWide: a few channels, PeerDepth steps: both directions    *)
+(*           interleaved, two closing_completes in flight, RBF bumps/drops, *)
+(*           script changes between rounds.                                 *)
 EXTENDS CoopClose
 
 CONSTANTS CommitFees,   \* set of commitment fees (sat)
@@ -62,8 +72,55 @@ RbfInit == /\ ch \in RbfChans /\ tx = [p \in P |-> NoTx] /\ NegIdle
 RbfNext == /\ rounds < RbfDepth
            /\ \E c \in P, k \in 0..2 : \E f \in RbfFees(c) : RbfOffer(f, c, k)
            /\ rounds' = rounds + 1
-           /\ UNCHANGED <<ideal, maxfee, last, prior, done, msg, turn, err>>
+           /\ UNCHANGED <<ideal, maxfee, last, prior, done, msg, turn, err, rb>>
 RbfSpec == RbfInit /\ [][RbfNext]_vars
+
+-----------------------------------------------------------------------------
+\* part III: a real node against an arbitrary honest peer
+CONSTANTS PeerDepth, PeerWide
+\* network dust limits of the executor's delivery scripts (A: p2wpkh, p2wsh, p2tr; B: p2tr, p2wpkh, p2wsh)
+PeerSd == [p \in P |-> IF p = "A" THEN <<294, 330, 330>> ELSE <<330, 294, 330>>]
+PeerHt == 3
+\* a small side between the two network dust limits: its label flips with the script kind
+PeerFew == RbfChans \cup
+           {MkChan("A", TRUE, FALSE, 200, 1300, 1000 * (Capacity - 6744 - 660 - 300), 1000 * 300, 6744),
+            MkChan("B", FALSE, FALSE, 200, 200, 1000 * 310 + 999, 1000 * (Capacity - 4344 - 311) + 1, 4344)}
+PeerInit == /\ ch \in (IF PeerWide THEN Chans ELSE PeerFew)
+            /\ tx = [p \in P |-> NoTx]
+            /\ ideal = [p \in P |-> 0] /\ maxfee = [p \in P |-> 0] /\ last = [p \in P |-> 0]
+            /\ prior = [p \in P |-> {}] /\ done = [p \in P |-> 0]
+            /\ msg = 0 /\ turn = "A" /\ rounds = 0 /\ err = ""
+            /\ \E n \in P, h \in {0, PeerHt} : rb = RbStart(n, h, PeerHt, PeerSd)
+PeerFees(c) ==
+  LET n == Sat(ch.view[c].our)  g == Gross(c) IN
+  IF PeerWide
+    THEN {f \in UNION {Around(x) : x \in {150, 1000, n, g, g - OwnDust(c), g - 294, g - 330}} : f >= 1}
+    ELSE {f \in {1000, 1001, 2600, n, n - 250} : f >= 1}
+PeerLts == IF PeerWide \/ PeerDepth <= 3 THEN {0, rb.ht} ELSE LockTimes
+PeerNext ==
+  /\ rounds < PeerDepth
+  /\ LET e == rb.node  c == Other(rb.node) IN
+     \/ /\ PeerWide => rounds = 0          \* wide: one round per behaviour
+        /\ \E f \in PeerFees(c), lt \in PeerLts, k \in {ch.scr[c][c], (ch.scr[c][c] + 1) % 3} :
+             \E F \in HonestFields(c, f) : PeerOffer(f, lt, k, F, IF PeerWide THEN 1 ELSE 2)
+     \/ NodeReply
+     \/ /\ PeerWide => rounds = 0
+        /\ \E f \in PeerFees(e) : NodeOffer(f)
+     \/ PeerReply
+     \/ NodeSig
+  /\ rounds' = rounds + 1
+  /\ UNCHANGED <<ideal, maxfee, last, prior, done, msg, turn, err>>
+PeerSpec == PeerInit /\ [][PeerNext]_vars
+
+\* vacuity guards of part III (each must be VIOLATED in its witness run)
+NeverNonZeroLockTimeSigned == ~(rb.what = "NReply" /\ rb.res = "ok" /\ rb.ans.lt # 0)
+NeverLabelRefusal == ~(rb.what = "NReply" /\ rb.res \in {"nosig", "badsig"})
+NeverCloseeOnlyAccepted == ~(rb.what = "NReply" /\ rb.res = "ok" /\ rb.sel = "closee")
+NeverCloserOnlyAccepted == ~(rb.what = "NReply" /\ rb.res = "ok" /\ rb.sel = "closer")
+NeverTwoInFlight == Len(rb.inq) < 2
+NeverPeerAccepts == ~(rb.what = "NSig" /\ rb.res = "ok")
+NeverPeerRefuses == ~(rb.what = "PReply" /\ rb.res # "ok" /\ rb.envh = 0)
+NeverStale == ~(rb.what = "PReply" /\ rb.res = "stale")
 
 -----------------------------------------------------------------------------
 Ideals == {x \in Lo..Hi : (x - Lo) % Step = 0}
@@ -77,7 +134,7 @@ NegInit ==
        maxfee = [p \in P |-> IF p = ch.opener /\ tight THEN Max(ideal["A"], ideal["B"]) ELSE 3 * ideal[p]]
   /\ Realistic
   /\ last = [p \in P |-> 0] /\ prior = [p \in P |-> {}] /\ done = [p \in P |-> 0]
-  /\ msg = 0 /\ turn = ch.opener /\ rounds = 0 /\ err = ""
+  /\ msg = 0 /\ turn = ch.opener /\ rounds = 0 /\ err = "" /\ rb = RbIdle
 NegNext == Begin \/ Receive
 NegSpec == NegInit /\ [][NegNext]_vars
 
@@ -87,7 +144,7 @@ AbortInit ==
   /\ ideal \in [P -> Ideals]
   /\ maxfee = [p \in P |-> ideal[p]]
   /\ last = [p \in P |-> 0] /\ prior = [p \in P |-> {}] /\ done = [p \in P |-> 0]
-  /\ msg = 0 /\ turn = ch.opener /\ rounds = 0 /\ err = ""
+  /\ msg = 0 /\ turn = ch.opener /\ rounds = 0 /\ err = "" /\ rb = RbIdle
 AbortSpec == AbortInit /\ [][NegNext]_vars
 NeverAbort == err = ""
 =============================================================================
